@@ -432,7 +432,7 @@ theorem clamp_InB : ∀ (ss gs p : List Nat), alignedOK ss gs = true → PosLt p
   | nil =>
     intro gs p ha hp
     cases gs with
-    | nil => cases p <;> simp_all [PosLt, clampIdx, InB]
+    | nil => cases p <;> simp_all [PosLt, clampIdx]
     | cons g gs => simp [alignedOK] at ha
   | cons s ss ih =>
     intro gs p ha hp
